@@ -342,7 +342,12 @@ def shrink(prop_cfg, session, want, known_flags, budget=60):
         except Exception:
             return False
         return any(classify(r, known_flags).split(":")[0] == want for r in res)
+    head = []
     cur = list(session)
+    if cur and cur[0].split(" ")[0] == "reset":
+        head, cur = cur[:1], cur[1:]          # a session's reset line is never removed
+    bad0 = bad
+    bad = lambda cand: bad0(head + cand)
     n = 2
     steps = 0
     while len(cur) >= 2 and steps < budget:
@@ -362,7 +367,7 @@ def shrink(prop_cfg, session, want, known_flags, budget=60):
             if chunk == 1:
                 break
             n = min(len(cur), n * 2)
-    return cur
+    return head + cur
 
 
 def write_replay(prop, kind, session_res, note=""):
